@@ -11,6 +11,9 @@ choice `sync.Pool` makes) exactly what it returns alone.  The proof combines
   * ownership exclusivity (a step of another goroutine does not touch what this goroutine owns),
 and `writeset_expected` ties the "touched only through atomic operations" premise to the Go source:
 the regenerated list of all assignments to shared objects contains only the synchronised ones.
+The abstract theorems take the laws of the runner / buffer / parse operations as a record (`Laws`);
+section `runnerInstance` instantiates them with the C12 models (`runnerSem`) and a *proved* value of the
+record (`runnerLaws`): `runner_interleaving_eq_sequential`, `runner_step_independent_of_shared_state`.
 
 What is NOT proved (explored by legs S and R instead): that the Go implementation realises this
 semantics at the level of the Go memory model -- that `sync.Pool`, `sync.Mutex` and the atomics give
@@ -94,9 +97,9 @@ open RegexVerif.RunnerReuse
     `Own := RunInv re`, `startR := scanInit ∘ (program selection)`, `putR := put`, `obs := observe`: a new
     runner satisfies the pool invariant, the pool invariant implies the ownership facts, starting a scan on
     any pooled runner gives the observable state a new runner gives, starting keeps the ownership facts,
-    and `put` re-establishes the pool invariant.  (The remaining laws -- the interpreter and `finish` read
-    only `observe`, decode overwrites -- are `call_history_independent`'s premise and
-    `pool_decode_history_independent` of C12.) -/
+    and `put` re-establishes the pool invariant.  (The complete record, including "the interpreter and
+    `finish` read only `observe`" and "decode overwrites", is `Lemmas.RunnerSem.runnerLaws`; see section
+    `runnerInstance` below.) -/
 theorem runner_laws_from_C12 (re : Re) (a : ScanArgs) (quick : Bool) :
     PoolInv re Runner.fresh ∧
     (∀ r, PoolInv re r → RunInv re r) ∧
@@ -229,6 +232,15 @@ theorem runner_step_reads_only_observable (re : Re) (a : CallArgs) (t : List Int
   refine ⟨h1.1, h1.2, (stepSt_obs re a t s h).2, ?_⟩
   intro d
   rw [finishSt_obs, finishSt_obs, ho, he]
+
+/-- why `OwnR` (well-formed slots) is needed -- and why `Laws.step_obs` carries the premise `Own r`: two
+    slots with the same view `(1, [0, -5])`; the negative cell is not a reference that points below itself,
+    so `matchLength` follows it to cell 2, which lies above `2*matchcount`, and returns the stale 7 resp. 99.
+    Such slots violate `Slot.WF` and are not reachable (`builder_never_reads_stale`, `transfer_interval_nonneg`). -/
+example :
+    viewS { count := 1, arr := [0, -5, 7, 8] } = viewS { count := 1, arr := [0, -5, 99, 8] } ∧
+    Slot.matchLengthWith rdAny { count := 1, arr := [0, -5, 7, 8] } = some 7 ∧
+    Slot.matchLengthWith rdAny { count := 1, arr := [0, -5, 99, 8] } = some 99 := by decide
 
 /-- **A step of a call on the C12 models does not depend on the shared state it finds** --
     `step_independent_of_shared_state` at `runnerSem` / `runnerLaws`. -/
